@@ -23,7 +23,8 @@ Record ecase := EC {
   e_complete : bool;        (* the crawl ran to quiescence and stop returned *)
   e_table_end : N;          (* size of the reactor state table at quiescence *)
   e_maxretry : N;           (* --max-retry *)
-  e_wedged : bool           (* the watchdog fired with seeds still tracked and no event at all for 35 s *)
+  e_wedged : bool;          (* the watchdog fired with seeds still tracked and no event at all for 35 s *)
+  e_hopviol : N             (* seeds fetched although more than --max-hops links away from the queue's rows (via chain) *)
 }.
 
 (* ---- replay through PipeLts.step ---- *)
@@ -265,6 +266,9 @@ Definition mon_captured_at_finish (c : ecase) : bool :=
 (* m11: no seed is dropped by getting stuck: the crawl never sits with tracked seeds and nothing moving *)
 Definition mon_not_wedged (c : ecase) : bool := negb (e_wedged c).
 
+(* m12 (C06, end to end): no seed is fetched that is more than --max-hops links away from the rows of the queue - the hop
+   count survives the round trip through the queue (Stage/Outlinks.v: an outlink is queued with hops + 1 and only below the limit) *)
+Definition mon_hop_bound (c : ecase) : bool := e_hopviol c =? 0.
 Definition mons (l : list ecase) :=
   mon_idx [mon_once; mon_done; mon_no_late_fetch; mon_all_fetched; mon_bounded; mon_idle; mon_wf; mon_one_place;
-           mon_attempts; mon_bounds; mon_captured_at_finish; mon_not_wedged] l.
+           mon_attempts; mon_bounds; mon_captured_at_finish; mon_not_wedged; mon_hop_bound] l.
